@@ -86,23 +86,32 @@ EvalList(P, es, k, acc, st) ==
 
 FnOf(P, name) == P.fns[CHOOSE k \in 1..Len(P.fns) : P.fns[k].name = name]
 
+(* a function may have comptime parameters (C16): the call's comptime arguments - types and
+   constants - are bound like ordinary immutable parameters, which is the beta-rule "a call behaves
+   like a call of the copy in which the parameters are replaced by the arguments" *)
+CParams(fn) == IF "cparams" \in DOMAIN fn THEN fn.cparams ELSE <<>>
 Call(P, f, args, st) ==
     IF st.fuel = 0 THEN R(Void, st, "nofuel", "")
     ELSE LET fn == FnOf(P, f)
-             sc == [ns |-> [k \in 1..Len(fn.params) |-> fn.params[k].n], vs |-> args]
+             all == CParams(fn) \o fn.params
+             sc == [ns |-> [k \in 1..Len(all) |-> all[k].n], vs |-> args]
              inner == [st EXCEPT !.env = <<sc>>, !.fuel = st.fuel - 1]
              r == Block(P, fn.body, inner)
              back == [r.st EXCEPT !.env = st.env]
          IN IF r.sig \in {"fault", "nofuel"} THEN R(r.v, back, r.sig, "")
             ELSE Norm(r.v, back)          \* norm (tail value) or ret (returned value)
 
+TyVar(e) == IF "tyv" \in DOMAIN e THEN e.tyv ELSE ""
+TyOf(e, st) == IF TyVar(e) # "" THEN Lookup(st.env, TyVar(e)) ELSE e.ty      \* [w, s] either way
 Eval(P, e, st) ==
-    CASE e.e = "int" -> Norm(IntV(e.ty.w, e.ty.s, e.b), st)
+    CASE e.e = "int" -> (IF TyVar(e) = "" THEN Norm(IntV(e.ty.w, e.ty.s, e.b), st)
+                         ELSE LET ty == TyOf(e, st) IN Norm(IntV(ty.w, ty.s, FromNat(ToNat(e.b), ty.w)), st))
+      [] e.e = "type" -> Norm([t |-> "type", w |-> e.ty.w, s |-> e.ty.s], st)
       [] e.e = "bool" -> Norm(BoolV(e.v), st)
       [] e.e = "none" -> Norm(Void, st)
       [] e.e = "var" -> Norm(Lookup(st.env, e.n), st)
       [] e.e = "un" -> LET r == Eval(P, e.x, st) IN IF r.sig # "norm" THEN r ELSE Norm(Un(e.op, r.v), r.st)
-      [] e.e = "cast" -> LET r == Eval(P, e.x, st) IN IF r.sig # "norm" THEN r ELSE Norm(Cast(e.ty, r.v), r.st)
+      [] e.e = "cast" -> LET r == Eval(P, e.x, st) IN IF r.sig # "norm" THEN r ELSE Norm(Cast(TyOf(e, r.st), r.v), r.st)
       [] e.e = "bin" ->
             LET a == Eval(P, e.l, st) IN
             IF a.sig # "norm" THEN a
@@ -111,7 +120,7 @@ Eval(P, e, st) ==
             ELSE LET b == Eval(P, e.r, a.st) IN
                  IF b.sig # "norm" THEN b ELSE Norm(Bin(e.op, a.v, b.v), b.st)
       [] e.e = "call" ->
-            LET as == EvalList(P, e.args, 1, <<>>, st) IN
+            LET as == EvalList(P, (IF "cargs" \in DOMAIN e THEN e.cargs ELSE <<>>) \o e.args, 1, <<>>, st) IN
             IF as.sig # "norm" THEN as ELSE Call(P, e.f, as.v, as.st)
       [] e.e = "arr" ->
             LET r == EvalList(P, e.es, 1, <<>>, st) IN
